@@ -6,8 +6,8 @@
 use crate::c04::{ascii_strings, boundary_strings, pair_strings};
 use crate::loopback::{AsyncLoop, BlockingLoop, Options};
 use conjure_error::Error;
-use conjure_http::client::{AsyncService as _, ConjureResponseDeserializer, DisplaySeqEncoder, Service as _};
-use conjure_http::server::{AsyncService as _, ConjureRuntime, FromStrOptionDecoder, FromStrSeqDecoder, Service as _, StdResponseSerializer};
+use conjure_http::client::{AsyncService as _, ConjureRequestSerializer, ConjureResponseDeserializer, DisplaySeqEncoder, Service as _};
+use conjure_http::server::{AsyncService as _, ConjureRuntime, FromStrOptionDecoder, FromStrSeqDecoder, RequestContext, Service as _, StdRequestDeserializer, StdResponseSerializer};
 use conjure_http::{conjure_client, conjure_endpoints, endpoint};
 use conjure_object::BearerToken;
 use futures::executor::block_on;
@@ -54,6 +54,9 @@ pub trait EchoService {
 
     #[endpoint(method = POST, path = "/e/unit")]
     fn unit(&self, #[auth(cookie_name = "SESS")] token: BearerToken, #[query(name = "s")] s: String) -> Result<(), Error>;
+
+    #[endpoint(method = POST, path = "/e/renamed/{theId}/mid/{rest}", name = "renamedEndpoint", produces = StdResponseSerializer)]
+    fn renamed(&self, #[path(name = "theId", log_as = "theId")] id: String, #[path(name = "rest")] tail: String, #[header(name = "X-Seen")] seen: String, #[body(deserializer = StdRequestDeserializer<64>)] body: String, #[context] ctx: RequestContext<'_>) -> Result<String, Error>;
 }
 
 #[conjure_endpoints(name = "EchoService")]
@@ -74,6 +77,9 @@ pub trait AsyncEchoService {
 
     #[endpoint(method = POST, path = "/e/unit")]
     async fn unit(&self, #[auth(cookie_name = "SESS")] token: BearerToken, #[query(name = "s")] s: String) -> Result<(), Error>;
+
+    #[endpoint(method = POST, path = "/e/renamed/{theId}/mid/{rest}", name = "renamedEndpoint", produces = StdResponseSerializer)]
+    async fn renamed(&self, #[path(name = "theId", log_as = "theId")] id: String, #[path(name = "rest")] tail: String, #[header(name = "X-Seen")] seen: String, #[body(deserializer = StdRequestDeserializer<64>)] body: String, #[context] ctx: RequestContext<'_>) -> Result<String, Error>;
 }
 
 impl EchoService for EchoHandler {
@@ -88,6 +94,11 @@ impl EchoService for EchoHandler {
         self.hit("unit", vec![d(&token.as_str()), d(&s)]);
         Ok(())
     }
+
+    fn renamed(&self, id: String, tail: String, seen: String, body: String, ctx: RequestContext<'_>) -> Result<String, Error> {
+        let via_ctx = ctx.request_headers().get("x-seen").and_then(|v| v.to_str().ok()).map(|s| s.to_string());
+        Ok(self.hit("renamed", vec![d(&id), d(&tail), d(&seen), d(&body), d(&via_ctx), d(&ctx.request_uri().path().to_string().starts_with("/e/renamed/"))]))
+    }
 }
 
 impl AsyncEchoService for EchoHandler {
@@ -101,6 +112,11 @@ impl AsyncEchoService for EchoHandler {
     async fn unit(&self, token: BearerToken, s: String) -> Result<(), Error> {
         self.hit("unit", vec![d(&token.as_str()), d(&s)]);
         Ok(())
+    }
+
+    async fn renamed(&self, id: String, tail: String, seen: String, body: String, ctx: RequestContext<'_>) -> Result<String, Error> {
+        let via_ctx = ctx.request_headers().get("x-seen").and_then(|v| v.to_str().ok()).map(|s| s.to_string());
+        Ok(self.hit("renamed", vec![d(&id), d(&tail), d(&seen), d(&body), d(&via_ctx), d(&ctx.request_uri().path().to_string().starts_with("/e/renamed/"))]))
     }
 }
 
@@ -122,6 +138,9 @@ pub trait EchoApi {
 
     #[endpoint(method = POST, path = "/e/unit")]
     fn unit(&self, #[auth(cookie_name = "SESS")] token: &BearerToken, #[query(name = "s")] s: &str) -> Result<(), Error>;
+
+    #[endpoint(method = POST, path = "/e/renamed/{theId}/mid/{rest}", name = "renamedEndpoint", accept = ConjureResponseDeserializer)]
+    fn renamed(&self, #[path(name = "theId")] id: &str, #[path(name = "rest")] tail: &str, #[header(name = "X-Seen")] seen: &str, #[body(serializer = ConjureRequestSerializer)] body: &str) -> Result<String, Error>;
 }
 
 #[conjure_client(name = "EchoService")]
@@ -142,6 +161,9 @@ pub trait AsyncEchoApi {
 
     #[endpoint(method = POST, path = "/e/unit")]
     async fn unit(&self, #[auth(cookie_name = "SESS")] token: &BearerToken, #[query(name = "s")] s: &str) -> Result<(), Error>;
+
+    #[endpoint(method = POST, path = "/e/renamed/{theId}/mid/{rest}", name = "renamedEndpoint", accept = ConjureResponseDeserializer)]
+    async fn renamed(&self, #[path(name = "theId")] id: &str, #[path(name = "rest")] tail: &str, #[header(name = "X-Seen")] seen: &str, #[body(serializer = ConjureRequestSerializer)] body: &str) -> Result<String, Error>;
 }
 
 struct Rig {
@@ -310,6 +332,38 @@ pub fn run(args: &Args, report: &mut Report) {
             judge(report, &rigs[0], "unit", "cookie+query", &class_of(&[s]), vec![d(&tok), d(s)], d(&()), false,
                 &|rig| EchoApiClient::new(&rig.blocking).unit(&token, s).map(|v| d(&v)),
                 &|rig| block_on(AsyncEchoApiClient::new(&rig.asyncl).unit(&token, s)).map(|v| d(&v)));
+        }
+    }
+    // ---- renamed: path parameters whose declared names differ from the identifiers, a body
+    //      with a per-endpoint size limit, the request context
+    for (ri, rig) in rigs.iter().enumerate() {
+        for a in &reduced {
+            for b in &reduced {
+                for body in ["", "b", "0123456789012345678901234567890123456789012345678901234567890x"] {
+                    // 64-byte limit on the JSON document: the 61-character string needs 63 bytes
+                    let seen = "seen-1";
+                    let want_args = vec![d(a), d(b), d(&seen), d(&body), d(&Some(seen.to_string())), d(&true)];
+                    *rig.handler.ret.lock().unwrap() = "r".into();
+                    judge(report, rig, "renamed", &format!("paths+body/rig{}", ri), &class_of(&[a, b]), want_args, d(&"r"), false,
+                        &|rig| EchoApiClient::new(&rig.blocking).renamed(a, b, seen, body).map(|v| d(&v)),
+                        &|rig| block_on(AsyncEchoApiClient::new(&rig.asyncl).renamed(a, b, seen, body)).map(|v| d(&v)));
+                }
+            }
+        }
+        // one byte over the limit is refused without reaching the handler
+        let over = "0123456789012345678901234567890123456789012345678901234567890xyz";
+        report.states += 1;
+        for asynch in [false, true] {
+            report.evaluations += 1;
+            report.transitions += 1;
+            rig.handler.take();
+            let got = if asynch { block_on(AsyncEchoApiClient::new(&rig.asyncl).renamed("a", "b", "s", over)).map(|_| ()) } else { EchoApiClient::new(&rig.blocking).renamed("a", "b", "s", over).map(|_| ()) };
+            let calls = rig.handler.take();
+            if got.is_err() && calls.is_empty() {
+                report.outcome("macro:oversize-body-refused");
+            } else {
+                report.violation(format!("C04|macro|renamed|limit|{}|oversize-body-delivered", if asynch { "async" } else { "blocking" }), format!("a 66-byte body reached the handler of an endpoint limited to 64 bytes: {:?} / {:?}", got.is_ok(), calls), json!({"macro_endpoint": "renamed", "body_len": over.len() + 2}));
+            }
         }
     }
     report.sample("macro", json!({"endpoint": "strings", "args": ["a/b", "%2F", "Some(\"x y\")", ["&", "="], "h", "None"]}));
